@@ -153,6 +153,32 @@ pub struct TcpFlow {
     server_http_parsed: bool,
 }
 
+/// Upper bound on the payload bytes buffered per direction of a flow while its HTTP head is
+/// still incomplete. A direction that exceeds it is given up: nothing more is stored for it.
+const MAX_BUFFERED_BYTES_PER_DIRECTION: usize = 64 * 1024;
+
+/// Payload bytes currently buffered in `segments`
+fn buffered_len(segments: &[TcpData]) -> usize {
+    let mut total: usize = 0;
+    for segment in segments {
+        total = total.saturating_add(segment.data.len());
+    }
+    total
+}
+
+/// Appends `segment` unless the direction would then hold more than
+/// `MAX_BUFFERED_BYTES_PER_DIRECTION` bytes. Returns false, with the buffer emptied, when the
+/// segment does not fit: the caller stops collecting this direction.
+fn push_within_limit(segments: &mut Vec<TcpData>, segment: TcpData) -> bool {
+    if buffered_len(segments).saturating_add(segment.data.len()) > MAX_BUFFERED_BYTES_PER_DIRECTION
+    {
+        segments.clear();
+        return false;
+    }
+    segments.push(segment);
+    true
+}
+
 /// Quick check if HTTP data is complete for parsing (supports HTTP/1.x and HTTP/2)
 fn has_complete_http_data(data: &[u8], processors: &HttpProcessors) -> bool {
     // Strategy: Don't make early decisions about protocol due to TCP fragmentation
@@ -287,7 +313,10 @@ fn process_tcp_packet(
             if is_client && src_ip == flow.client_ip && src_port == flow.client_port {
                 // Only add data and parse if not already parsed
                 if !flow.client_http_parsed {
-                    flow.client_data.push(tcp_data);
+                    if !push_within_limit(&mut flow.client_data, tcp_data) {
+                        debug!("CLIENT: head incomplete at the buffer limit, giving up on it");
+                        flow.client_http_parsed = true;
+                    }
                     let full_data = flow.get_full_data(is_client);
 
                     // Quick check before expensive parsing (supports HTTP/1.x and HTTP/2)
@@ -307,7 +336,10 @@ fn process_tcp_packet(
             } else if src_ip == flow.server_ip && src_port == flow.server_port {
                 // Only add data and parse if not already parsed
                 if !flow.server_http_parsed {
-                    flow.server_data.push(tcp_data);
+                    if !push_within_limit(&mut flow.server_data, tcp_data) {
+                        debug!("SERVER: head incomplete at the buffer limit, giving up on it");
+                        flow.server_http_parsed = true;
+                    }
                     let full_data = flow.get_full_data(is_client);
 
                     // Quick check before expensive parsing (supports HTTP/1.x and HTTP/2)
